@@ -229,9 +229,11 @@ JLookup(r) ==
      \cup (IF intact THEN {} ELSE {"C20.ResponseIntact"})
      \* table runs: the script and the set of results Lookup.tla allows for it were enumerated by TLC (MC_LookupGen);
      \* the call must have returned one of them (strict when no scripted send was late and the call itself was on time)
-     \cup (IF r.table = 1 /\ r.late <= r.tol /\ r.elapsed <= r.timeout + r.tol /\ ~(\E i \in 1..Len(r.allowed) : r.allowed[i] = r.found)
+     \cup (IF r.table = 1 /\ r.late <= r.tol /\ r.stall <= r.tol /\ r.elapsed <= r.timeout + r.tol /\ ~(\E i \in 1..Len(r.allowed) : r.allowed[i] = r.found)
           THEN {IF r.op = "describe" THEN "C20.FirstMatch" ELSE "C20.AllMatches"} ELSE {})
-     \cup (IF r.elapsed <= r.timeout + r.slack + setup /\ (r.op = "describe" \/ r.elapsed >= r.timeout) THEN {} ELSE {"C20.ReturnBound"})
+     \* (upper bound widened by twice the scheduling lateness measured while the call ran: a starved machine delays the
+     \* call's own timer; the lower bound of discover is never widened)
+     \cup (IF r.elapsed <= r.timeout + r.slack + setup + 2 * r.stall /\ (r.op = "describe" \/ r.elapsed >= r.timeout) THEN {} ELSE {"C20.ReturnBound"})
      \cup (IF r.reqs = 1 THEN {} ELSE {"C20.OneRequest"})
      \cup (IF r.hpaiok = 1 THEN {} ELSE {"C20.DescribeHpai"})
      \cup (IF r.released = 1 THEN {} ELSE {"C20.SocketReleased"})
